@@ -298,6 +298,11 @@ func (in *Interp) bitop(op token.Token, a, b *Term, bits uint8, signed bool) Val
 			}
 		}
 	}
+	if bop, ok := map[token.Token]Op{token.AND: OBitAnd, token.OR: OBitOr, token.XOR: OBitXor}[op]; ok {
+		if t := tb.BitOp(bop, a, b); t != nil {
+			return tb.Wrap(t, bits, signed)
+		}
+	}
 	// fall back to enumeration over a single small-domain variable pair: concretize both
 	if vals := in.possibleValues(a, 256); vals != nil {
 		if vb := in.possibleValues(b, 256); vb != nil && len(vals)*len(vb) <= 512 {
